@@ -23,7 +23,7 @@ RULE = (
     "(i) alphabet per evaluator configuration c (quick: c1 = UNMATCHED + default metric lists, c2 = UNMATCHED + explicit lists, groups, decision, asymmetric handler; thorough: + c0 = all defaults (MATCHED), c3 = SEMANTIC): "
     "newE(c), evaluate(x0|x1|x2) (always the same two array objects per history, overwritten in place with the input), evaluate(x0, save_group_times=True), evaluate(x0, result_all=False, log_times=True, verbose=True), read resulting_metric_keys, save_to_config, new aggregator(log_times F|T), aggregator.evaluate; "
     "+ new default EdgeCaseHandler, direct panoptic_evaluate with defaults, construction (+ attempted use) of two evaluators with unusual argument combinations (decision metric outside the default metric list; RVD decision at 0 with all flags; default instance metrics with other global metrics); ALL histories of length <= 3 (thorough <= 4 on the quick alphabet), each in a pristine forked process; "
-    "semantic histories: ALL histories of length <= 4 (thorough 5) over {new evaluator, new evaluator sharing the approximator object, evaluate 1-D / 2-D / 3-D input with diagonal contacts on either evaluator}; "
+    "semantic histories: ALL histories of length <= 4 (thorough 5) over {new evaluator, new evaluator sharing the approximator object, evaluate 1-D / 2-D / 3-D input with diagonal contacts on either evaluator}; merge-matcher histories: ALL histories of length <= 4 (thorough 5) over {new evaluator with a MaximizeMergeMatching, new evaluator sharing that matcher object, evaluate y0 (merge accepted) / y1 (merge to be rejected) / y2 (other accepted merge) on either evaluator}; "
     "(ii) result_all{T,F} x save_group_times{None,T,F} x log_times{None,T,F} x verbose{None,T,F} x constructor flags 2^3 x 3 inputs x 2 configurations; "
     "(iii) 1 .. 2*cpu_count+7 identical well separated instances x input type (tp must equal the instance count however the work is split); all pairs of G1(4,2) with >= 2 tasks: serial vs every task execution order of each pool call; 64 (thorough 512) inputs with the real multiprocessing.Pool. "
     "non-trivial = histories in which an evaluator is used after another object was constructed or used; distinct by history / option tuple / input"
@@ -396,6 +396,69 @@ def _sem_history_child(hist, base):
 _SEMBASE: list = []
 
 
+# ------------------------------------------------------------------------------------------------ merge-matcher histories
+def _z12(**runs):
+    a = [0] * 12
+    for k, (lo, hi) in runs.items():
+        a[lo:hi] = [int(k[1:])] * (hi - lo)
+    return np.array(a, dtype=np.uint8)
+
+
+# same shape, same labels: y0 a merge that improves (5/8 -> 1), y1 a merge that must be rejected (6/8 -> 8/11), y2 another accepted merge + a second pair
+MRGX = [
+    (_z12(l1=(0, 5), l2=(5, 8)), _z12(l1=(0, 8))),
+    (_z12(l1=(0, 6), l2=(6, 11)), _z12(l1=(0, 8))),
+    (_z12(l1=(0, 4), l2=(4, 6), l3=(8, 10)), _z12(l1=(0, 6), l2=(8, 11))),
+]
+
+
+def _mrg_new(matcher=None):
+    from panoptica import Panoptica_Evaluator
+    from panoptica.instance_matcher import MaximizeMergeMatching
+
+    matcher = matcher or MaximizeMergeMatching(Metric.IOU, 0.5)
+    return Panoptica_Evaluator(expected_input=ITYPE["UNMATCHED"], instance_matcher=matcher), matcher
+
+
+def _mrg_baseline_child():
+    out = {}
+    for x in range(len(MRGX)):
+        ev, _ = _mrg_new()
+        out[x] = obs_of(ev.evaluate(MRGX[x][0].copy(), MRGX[x][1].copy(), verbose=False))
+    return out
+
+
+def _mrg_history_child(hist, base):
+    viol = []
+    ev, matcher = _mrg_new()
+    other = None
+    for i, op in enumerate(hist):
+        where = f"after {list(hist[:i])} the operation {op}"
+        try:
+            if op[0] == "newE":
+                ev, matcher = _mrg_new()
+            elif op[0] == "newShared":
+                other, _ = _mrg_new(matcher)
+            elif op[0] in ("eval", "evalOther"):
+                if op[0] == "evalOther" and other is None:
+                    other, _ = _mrg_new(matcher)
+                e = ev if op[0] == "eval" else other
+                x = op[1]
+                p, r = MRGX[x][0].copy(), MRGX[x][1].copy()
+                got = obs_of(e.evaluate(p, r, verbose=False))
+                if not np.array_equal(p, MRGX[x][0]) or not np.array_equal(r, MRGX[x][1]):
+                    viol.append(("C15:input_mutated", f"{where} modified the caller's arrays"))
+                d = same_results(base[x], got)
+                if d:
+                    viol.append(("C15:result_depends_on_history:shared_matcher", f"{where} (merge matcher, input y{x}) reports different metrics than a fresh evaluator in a fresh process: {d[:6]}"))
+        except Exception as e:
+            viol.append((f"C15:operation_raised:{op[0]}:{type(e).__name__}", f"{where} raised {e!r}"))
+    return viol
+
+
+_MRGBASE: list = []
+
+
 # ------------------------------------------------------------------------------------------------ blocks
 def blocks(tier):
     B = []
@@ -414,6 +477,8 @@ def blocks(tier):
             B.append(("hist", (0, 3), 3, first))
     for first in range(len(SEM_OPS)):
         B.append(("semhist", 4 if tier == "quick" else 5, first))
+    for first in range(len(SEM_OPS)):
+        B.append(("mrghist", 4 if tier == "quick" else 5, first))
     for c in (1, 2):
         for x in range(3):
             B.append(("opts", c, x))
@@ -444,11 +509,11 @@ def run_block(block, acc):
         ops = alphabet(cfgs)
         for rest in itertools.product(range(len(ops)), repeat=2):
             run_case({"kind": "hist", "configs": list(cfgs), "history": [first, second] + list(rest)}, acc)
-    elif kind == "semhist":
+    elif kind in ("semhist", "mrghist"):
         _, depth, first = block
         for L in range(1, depth + 1):
             for rest in itertools.product(range(len(SEM_OPS)), repeat=L - 1):
-                run_case({"kind": "semhist", "history": [first] + list(rest)}, acc)
+                run_case({"kind": kind, "history": [first] + list(rest)}, acc)
     elif kind == "opts":
         _, c, x = block
         for ra in (True, False):
@@ -507,6 +572,23 @@ def run_case(case, acc):
         acc.outcome(tuple(v[0] for v in viol))
         if acc.evaluations % 499 == 1:
             acc.sample({"semantic_history": [list(o) for o in hist]})
+        for sig, msg in viol:
+            acc.violation(sig, {**case, "ops": [list(o) for o in hist]}, msg)
+        if not viol:
+            acc.ok()
+    elif kind == "mrghist":
+        hist = [SEM_OPS[i] for i in case["history"]]
+        acc.case("mrghist", tuple(case["history"]))
+        if not _MRGBASE:
+            _MRGBASE.append(in_child(_mrg_baseline_child))
+        acc.step(len(hist))
+        viol = in_child(_mrg_history_child, hist, _MRGBASE[0])
+        acc.state("mrghist", tuple(case["history"]))
+        if len({o[1] for o in hist if len(o) > 1}) >= 2:
+            acc.nontriv("mrghist", tuple(case["history"]))
+        acc.outcome(tuple(v[0] for v in viol))
+        if acc.evaluations % 499 == 1:
+            acc.sample({"merge_matcher_history": [list(o) for o in hist]})
         for sig, msg in viol:
             acc.violation(sig, {**case, "ops": [list(o) for o in hist]}, msg)
         if not viol:
